@@ -41,3 +41,18 @@ func Find(p Meta, path string) Definition {
 	}
 	return nil
 }
+
+// findInChoices looks for a data definition in the cases of the choices among
+// defs, at any nesting depth.
+func findInChoices(defs []Definition, ident string) Definition {
+	for _, d := range defs {
+		if choice, isChoice := d.(*Choice); isChoice {
+			for _, caseIdent := range choice.CaseIdents() {
+				if found := choice.Cases()[caseIdent].Definition(ident); found != nil {
+					return found
+				}
+			}
+		}
+	}
+	return nil
+}
